@@ -238,7 +238,7 @@ impl Property for C04 {
         unit.nontrivial = !unit.probes.is_empty() && (txt.contains("oneOf") || txt.contains("anyOf") || txt.contains("$ref") || txt.contains("Renamed") || txt.contains("additionalProperties"));
         unit
     }
-    fn in_domain(&self, _c: &Value) -> bool {
+    fn shrinks(&self, _c: &Value) -> bool {
         // schema and samples come from the origin crate: they are not shrunk
         false
     }
